@@ -3,6 +3,7 @@ import Rfsm.Proofs.ExprOps
 import Rfsm.Proofs.ExprLexerLemmas
 import Rfsm.Proofs.ExprFuel
 import Rfsm.Proofs.ExprEvalLemmas
+import Rfsm.Proofs.ExprLivelock
 /-!
 # C11 — Expression parsing and evaluation always terminate with a value or an error
 
@@ -120,6 +121,31 @@ theorem C11_parse_total_partial (text : Str) :
   | panic => exact absurd h h1
   | outOfFuel => exact absurd h h2
 #assert_axioms C11_parse_total_partial
+
+/-- the livelock happens only on texts whose last character is `<`, `>`, `=` or `!` -/
+theorem C11_livelock_only_at_trailing_operator (text : Str) (h : parse text = .livelock) :
+    ∃ c, (c = 60 ∨ c = 62 ∨ c = 61 ∨ c = 33) ∧ text.getLast? = some c :=
+  parse_livelock_ends_bad text h
+#assert_axioms C11_livelock_only_at_trailing_operator
+
+/-- **Parsing terminates with an expression or an error for every text that does not end in
+`<`, `>`, `=` or `!`** (all strings; no fuel, no panic, no livelock).
+Missing for the parsing half of `C11_full`: exactly the texts excluded here, on which the
+unchanged code does not terminate (`C11_counterexample_livelock`). -/
+theorem C11_parse_terminates_partial (text : Str)
+    (h : ∀ c, text.getLast? = some c → c ≠ 60 ∧ c ≠ 62 ∧ c ≠ 61 ∧ c ≠ 33) :
+    (∃ e, parse text = .ok e) ∨ (∃ e, parse text = .err e) := by
+  rcases C11_parse_total_partial text with h1 | h1 | h1
+  · exact Or.inl h1
+  · exact Or.inr h1
+  · obtain ⟨c, hc, hl⟩ := parse_livelock_ends_bad text h1
+    have := h c hl
+    rcases hc with rfl | rfl | rfl | rfl <;> simp_all
+#assert_axioms C11_parse_terminates_partial
+
+/-- non-vacuity: `1 < 2` satisfies the hypothesis -/
+example : ∀ c, ([49, 32, 60, 32, 50] : Str).getLast? = some c → c ≠ 60 ∧ c ≠ 62 ∧ c ≠ 61 ∧ c ≠ 33 := by
+  intro c h; simp at h; subst h; decide
 
 /-- `stack_to_expression` shortens its stack on every round: `stack.length + 1` rounds suffice -/
 theorem C11_stackToExpr_fuel_sufficient (stack : List Item) :
